@@ -335,3 +335,37 @@ def layout(text, canonical, holes):
     toks = [t for t in tree.scan_values(lambda v: True) if getattr(t, "type", "") == "STRING_LIT"]
     q = src.index("==") + 3
     return len(toks) == 1 and str(toks[0]) == src[q:], f"{src!r}: string tokens {[str(t) for t in toks]!r}, spelled literal {src[q:]!r}"
+
+
+def reparse_after_use(text):
+    """one Environment: compile, build a program under each runner class and evaluate it (evaluation may touch the tree), then compile the
+    same text again: the second tree is the tree a fresh parser gives, and it still survives the dump round trip"""
+    import celpy
+    import celpy.celparser
+    celpy.CELParser.CEL_PARSER = None
+    fresh_tree = celpy.CELParser().parse(text)
+    fresh = canon(fresh_tree)
+    for runner in (celpy.InterpretedRunner, celpy.CompiledRunner):
+        celpy.CELParser.CEL_PARSER = None
+        env = celpy.Environment(runner_class=runner)
+        ast = env.compile(text)
+        first = canon(ast)
+        for _ in range(2):
+            try:
+                env.program(ast, functions={"f": lambda *a: celpy.celtypes.IntType(7), "g": lambda *a: celpy.celtypes.BoolType(True)}).evaluate(
+                    {"x": celpy.celtypes.IntType(3), "m": celpy.celtypes.MapType({celpy.celtypes.StringType("k"): celpy.celtypes.IntType(1)})})
+            except Exception:  # noqa: BLE001 - only the effect of an evaluation on later parses matters here
+                pass
+        again = env.compile(text)
+        if canon(again) != fresh or first != fresh:
+            return False, f"{text!r}: re-compiled by the same Environment after an evaluation ({runner.__name__}) gives {canon(again)!r}; a fresh parse gives {fresh!r}"
+        if not (again == fresh_tree):
+            # node for node (rule names, children, token texts), not only the operator structure
+            return False, f"{text!r}: re-compiled by the same Environment after an evaluation ({runner.__name__}) gives the tree {again!r:.200}; a fresh parse gives {fresh_tree!r:.200}"
+        try:
+            back = canon(celpy.CELParser().parse(celpy.celparser.tree_dump(again)))
+        except Exception as ex:  # noqa: BLE001
+            return False, f"{text!r}: dump of the re-compiled tree does not re-parse: {type(ex).__name__}"
+        if back != fresh:
+            return False, f"{text!r}: dump of the re-compiled tree re-parses to {back!r}, not {fresh!r}"
+    return True, "ok"
